@@ -10,7 +10,9 @@
   denotes the input's morphism under every rigid functor (monoidal functor + snake equations for
   the images of cups/caps) into every partial strict monoidal algebra; only pairs satisfying a snake
   equation are removed by a yank step (`yank_step_is_snake`); `find_snake` is complete over all
-  caps and both legs; `follow_wire` returns the consumer of the wire it follows
+  caps and both legs (`find_snake_complete`; positive form `find_snake_sees_both_legs`: a cup that
+  is in place on one leg of a cap but fails the snake equation cannot hide a snake on the other
+  leg); `follow_wire` returns the consumer of the wire it follows
   (`follow_wire_spec`, against independent producer labels).
   Proved about the model's transcription of the loop (rewriting.py:395-441), for every well-typed
   diagram whose cups/caps have the shape their constructors enforce:
@@ -27,6 +29,10 @@
       leg of a matching cup; `snake_removal_is_normalize_after_loop`, `snake_removal_never_raises` —
       `snakeRemoval` equals the final `normalize` run on the loop's result, and that raises
       nothing either (a redex can always be interchanged): no exception for any fuel;
+    * `normalize_step_not_undone` — for either value of `left`, a redex interchanged with the
+      preference it was tested with and interchanged again at the same position is back at its
+      offsets only if both boxes are scalars: no two-cycle on an effect directly above a state
+      at the same offset (the pair that can be moved either way);
     * bookkeeping without any hypothesis: `move_obstructions_spec`, `remove_pair_length`,
       `snake_loop_result`.
   NOT proved (kept as a `Prop` no theorem claims): `snake_removal_terminates` — termination of the
@@ -35,6 +41,7 @@
 import Proofs.Snake
 import Proofs.FollowWire
 import Proofs.UnsnakeLoop
+import Proofs.NormalizeCycle
 
 namespace DV.C07
 open DV
@@ -73,6 +80,22 @@ theorem find_snake_complete (d : Diagram) (h : d.findSnake = none) :
       b.kind = .cap → tryYank d cap b off true = none ∧ tryYank d cap b off false = none :=
   fun cap b off hc hb ho hk =>
     findSnakeFrom_none h cap b off (Nat.zero_le _) (by omega) hb ho hk
+
+/-- Positive form, per leg: whenever SOME cap has a leg (left or right) that admits a yank,
+    `find_snake` returns a pair — whatever the other leg of that cap or any other cap runs into.
+    In particular a cup that sits in the right place on a cap's left leg but does not satisfy the
+    snake equation with it (rewriting.py:389-392) cannot hide a genuine snake on the right leg. -/
+theorem find_snake_sees_both_legs (d : Diagram) (cap : Nat) (b : Box) (off : Int)
+    (leftSnake : Bool) (y : Yank) (hc : cap < d.boxes.length) (hb : d.boxes[cap]? = some b)
+    (ho : d.offsets[cap]? = some off) (hk : b.kind = .cap)
+    (h : tryYank d cap b off leftSnake = some y) : d.findSnake.isSome = true := by
+  cases hf : d.findSnake with
+  | some _ => rfl
+  | none =>
+    have hn := find_snake_complete d hf cap b off hc hb ho hk
+    cases leftSnake
+    · rw [hn.2] at h; cases h
+    · rw [hn.1] at h; cases h
 
 /-- `follow_wire` (rewriting.py:350-371) is correct against an independent labelling of every
     wire by its producer (`Diagram.labels`): it returns the box that consumes the very wire it was
@@ -177,6 +200,21 @@ theorem snake_loop_result (fuel : Nat) (d d1 : Diagram) (acc acc1 : List Diagram
       (d1.findSnake = none ∨ SnakeRounds fuel d d1) :=
   snakeLoop_result fuel h
 
+/-- The final `normalize` never undoes its own step (for either value of `left`): when position
+    `i` is a redex for `left`, is interchanged with that same preference, is a redex again and is
+    interchanged again, the two boxes are back at their offsets only if both are scalars (empty
+    domain and codomain) — the shortest way `normal_form` could meet a diagram twice, and with it
+    raise `NotImplementedError`, is closed for diagrams without scalars.  (An effect directly above
+    a state at the same offset can be moved either way; testing with `left` but moving with the
+    default preference does cycle there — see the examples below.) -/
+theorem normalize_step_not_undone (d d1 d2 : Diagram) (left : Bool) (i : Nat) (hd : d.WF)
+    (h1 : d.redex left i = true) (s1 : d.interchange (i : Int) ((i : Int) + 1) left = .ok d1)
+    (h2 : d1.redex left i = true) (s2 : d1.interchange (i : Int) ((i : Int) + 1) left = .ok d2)
+    (hc : d2.offsets = d.offsets) :
+    ∃ b0 b1, d.boxes[i]? = some b0 ∧ d.boxes[i+1]? = some b1 ∧
+      b0.dom = [] ∧ b0.cod = [] ∧ b1.dom = [] ∧ b1.cod = [] :=
+  Diagram.normalize_no_two_cycle hd h1 s1 h2 s2 hc
+
 /-- NOT PROVED: termination of the monoidal normal form that follows (C06's gap). -/
 def snake_removal_terminates : Prop :=
   ∀ (d : Diagram) (left : Bool), d.WF → connected d →
@@ -234,6 +272,88 @@ example : (match rightSnake with
         | .error _ => false) &&
       (match snakeLoop (d.boxes.length + 1) d [] with
         | .ok (d1, acc) => acc.length == 5 && d1.findSnake.isNone
+        | .error _ => false)
+    | .error _ => false) = true := by decide
+
+/-! Non-vacuity of `find_snake_sees_both_legs`: caps BOTH of whose legs run into cups.
+    `mixedR`: `Id(n.r) @ Cap(n, n.l) @ Id(n) >> Cup(n.r, n) @ Id(n.l @ n) >> Cup(n.l, n)` — the left
+    leg enters `Cup(n.r, n)` in the right place but `n.r ≠ n.l` (no snake equation), the right leg
+    is a genuine right-handed snake: the left attempt fails, the right one is returned, the loop
+    yanks it and leaves `Cup(n.r, n)`.  `mixedL` is the mirror image (genuine left-handed snake,
+    type-mismatched cup on the right leg, one obstruction); `mixedNone`: both legs mismatched,
+    nothing may be removed. -/
+private def mixedR : Except Err Diagram :=
+  Diagram.mk? [n.r, n] [] [Box.cap n n.l, Box.cup n.r n, Box.cup n.l n] [1, 0, 0]
+private def mixedL : Except Err Diagram :=
+  Diagram.mk? [n, n.l] [] [Box.cap n.r n, f, Box.cup n n.l, Box.cup n n.r] [1, 0, 2, 0]
+private def mixedNone : Except Err Diagram :=
+  Diagram.mk? [n.r, n.l.l] [] [Box.cap n n.l, Box.cup n.r n, Box.cup n.l n.l.l] [1, 0, 0]
+
+example : (match mixedR with
+    | .ok d => d.boxesValid && (tryYank d 0 (Box.cap n n.l) 1 true).isNone
+        && tryYank d 0 (Box.cap n n.l) 1 false == some ⟨2, 0, [1], [], false⟩
+        && d.findSnake == some ⟨2, 0, [1], [], false⟩
+        && (match d.snakeRemoval false 10 with
+            | .ok (steps, fin) => fin && (checkSnakeTrace false d steps 0).isNone
+                && (lastOr d steps).boxes == [Box.cup n.r n] && (lastOr d steps).findSnake.isNone
+            | .error _ => false)
+    | .error _ => false) = true := by decide
+
+example : (match mixedL with
+    | .ok d => d.boxesValid && d.findSnake == some ⟨3, 0, [1], [2], true⟩
+        && (tryYank d 0 (Box.cap n.r n) 1 false).isNone
+        && (match d.snakeRemoval true 10 with
+            | .ok (steps, fin) => fin && (checkSnakeTrace true d steps 0).isNone
+                && (lastOr d steps).boxes == [f, Box.cup n n.l] && (lastOr d steps).findSnake.isNone
+            | .error _ => false)
+    | .error _ => false) = true := by decide
+
+example : (match mixedNone with
+    | .ok d => d.boxesValid && d.findSnake.isNone && d.snakeRemoval false 10 == .ok ([], true)
+    | .error _ => false) = true := by decide
+
+/-! Non-vacuity of `normalize_step_not_undone`.
+    `cupCap`: `f >> Cup(n, n.r) @ Id(y) >> Cap(n, n.l) @ Id(y) >> g` — connected; the cup sits
+    directly above the cap at offset 0, so the pair can be interchanged either way.  With
+    `left = true` position 1 is a redex, the left move is made, position 1 is no redex any more and
+    `normalize(left=True)` starts with that step and finishes.  Moving with the OTHER preference
+    instead puts position 1 back into a `left`-redex and a second such move restores the input:
+    the hypothesis that test and move use the same `left` is needed.
+    `twoScalars`: the hypotheses of the theorem are satisfiable — two scalars do cycle. -/
+private def yy : Ob := ⟨"y", 0⟩
+private def fTop : Box := { name := "f", dom := [⟨"x", 0⟩], cod := [n, n.r, yy] }
+private def gBot : Box := { name := "g", dom := [n, n.l, yy], cod := [⟨"z", 0⟩] }
+private def cupCap : Except Err Diagram :=
+  Diagram.mk? [⟨"x", 0⟩] [⟨"z", 0⟩] [fTop, Box.cup n n.r, Box.cap n n.l, gBot] [0, 0, 0, 0]
+
+example : (match cupCap with
+    | .ok d => d.redex true 1 && d.redex false 1 &&
+      (match d.interchange 1 2 true with
+        | .ok d1 => d1.offsets == [0, 2, 0, 0] && !d1.redex true 1 &&
+          (match d.snakeRemoval true 10 with
+            | .ok (steps, fin) => fin && steps.head? == some d1
+                && (checkSnakeTrace true d steps 0).isNone
+            | .error _ => false)
+        | .error _ => false) &&
+      (match d.interchange 1 2 false with
+        | .ok e => e.offsets == [0, 0, 2, 0] && e.boxes == [fTop, Box.cap n n.l, Box.cup n n.r, gBot]
+            && e.redex true 1 && e.interchange 1 2 false == .ok d &&
+          (match d.snakeRemoval false 10 with
+            | .ok (steps, fin) => fin && steps.head? == some e
+            | .error _ => false)
+        | .error _ => false)
+    | .error _ => false) = true := by decide
+
+private def sc (s : String) : Box := { name := s, dom := [], cod := [] }
+private def twoScalars : Except Err Diagram := Diagram.mk? [n] [n] [sc "a", sc "b"] [0, 0]
+
+example : (match twoScalars with
+    | .ok d => d.redex true 0 &&
+      (match d.interchange 0 1 true with
+        | .ok d1 => d1.redex true 0 &&
+          (match d1.interchange 0 1 true with
+            | .ok d2 => d2.offsets == d.offsets
+            | .error _ => false)
         | .error _ => false)
     | .error _ => false) = true := by decide
 
